@@ -371,6 +371,16 @@ class Run:
                     if src is not None and not any(r["status"] == "PASS" and wid in r["name"]
                                                    for par in n.setup_nodes for r in par.shared_results):
                         self.monitor.append(("C08", "location names a worker that did not produce the state", w, ni))
+            # completeness: every worker with a PASS result on the producing parent is named as a source
+            for par, objs in n.setup_nodes.items():
+                if o not in objs:
+                    continue
+                for r in par.shared_results:
+                    if r["status"] != "PASS":
+                        continue
+                    prod = next((v.id for v in self.workers if v.id in r["name"]), None)
+                    if prod is not None and not any(loc.split(":")[0] == prod for loc in locs):
+                        self.monitor.append(("C08", f"producer {prod} of {x} is not named as a source", w, ni))
             if not any(x in self.store.get(pl, set()) for pl in places):
                 producer = next((par for par, objs in n.setup_nodes.items() if o in objs), None)
                 attempted = producer is not None and producer.bridged_form in self.attempted_failed
